@@ -17,7 +17,23 @@ THEOREMS = [
     "Mpc.C16_unknown_label_is_error",
     "Mpc.C16_garblerDecode_eq",
     "Mpc.C16_wrong_gate_count",
+    # streaming sessions: the result loop consumes exactly Outputs.Size labels
+    "Mpc.C16_streamResultLoop_eq_decode",
+    "Mpc.C16_stream_result_count",
+    "Mpc.C16_stream_short_is_error",
+    "Mpc.C16_stream_wrong_imp_offset",
+    "Mpc.C16_block_loop_accepts_short_block",      # negation witness for a loop resolving len(block)/16 labels
+    # what the reduction does not cover: the evaluator's input bits come from the (unauthenticated) argument description
+    "Mpc.C16_labels_of_other_input_accepted",
+    "Mpc.C16_description_member_width_witness",
+    "Mpc.C16_description_residual_witness",
 ]
+
+STREAM_REGIONS = ["stream_key", "stream_description", "stream_inputlabels", "stream_g2e_ot", "stream_instructions",
+                  "stream_e2g_ot", "stream_result_framing", "stream_outputlabels"]
+WHOLE_REGIONS = ["key", "tables", "inputlabels", "ot_sender", "resultdata", "ot_receiver_and_range", "outputlabels"]
+LENGTH_KINDS = ["keylen", "namelen", "typelen", "typedigit", "bits", "ccount", "nout", "nsteps", "ngates", "ntmp", "nwires",
+                "reslen"]
 
 
 def run(ctx):
@@ -49,6 +65,9 @@ def run(ctx):
     ctx.advise("streaming garbler result loop: Equal(L0)/Equal(L1)/else error (source text)",
                bool(re.search(r"if label\.Equal\(wire\.L0\) \{\s*bit = 0\s*\} else if label\.Equal\(wire\.L1\) \{\s*bit = 1\s*\} "
                               r"else \{\s*return nil, nil, fmt\.Errorf\(\"unknown label", st)), True)
+    ctx.advise("streaming garbler result loop: one ReceiveLabel per result bit, prog.Outputs.Size() iterations (source text)",
+               bool(re.search(r"for i := 0; i < prog\.Outputs\.Size\(\); i\+\+ \{\s*err := conn\.ReceiveLabel\(&label, &labelData\)", st)),
+               True)
     ev = vlib.strip_go_comments(vlib.repo_file("circuit/eval.go"))
     ctx.advise("Eval checks table row lengths (source text)",
                {"and_len": len(re.findall(r"len\(row\) != 2", ev)) >= 1, "index_bound": len(re.findall(r"index >= len\(row\)", ev)) >= 1},
@@ -60,7 +79,20 @@ def run(ctx):
         ctx.correspond("garbler result loop on scripted returned labels (honest/garbage/bitflip/other-label)", ops, out)
         for line in open(ops, errors="replace"):
             ctx.distinct.add(hashlib.sha1(line.encode()).digest())
-        ops, out, meta = ctx.run_hx("faults", 2500 if quick else 0, timeout=2400)
+        # the real STREAMING garbler against a scripted streaming evaluator (chosen number of chosen labels) vs Lean streamResult
+        ops, out, meta = ctx.run_hx("sdecide", 300 if quick else 4000, timeout=1500)
+        ctx.absorb_meta(meta, prefix="sdecide_")
+        ctx.correspond("streaming garbler result loop on a scripted result message (short / exact / long label count; "
+                       "honest/other-label/bitflip/garbage/zero labels)", ops, out)
+        for line in open(ops, errors="replace"):
+            ctx.distinct.add(hashlib.sha1(line.encode()).digest())
+        c = ctx.coverage.get("counters", {})
+        ctx.oblige("scripted streaming evaluator: the result message is the OpResult word + Outputs.Size labels of 16 bytes "
+                   "(otherwise the label count cannot be scripted) and short, exact and long counts were all exercised",
+                   c.get("sdecide_format_unexpected", 0) == 0 and min(c.get("sdecide_count_short", 0),
+                   c.get("sdecide_count_exact", 0), c.get("sdecide_count_long", 0)) > 0,
+                   {k: v for k, v in c.items() if k.startswith("sdecide_")})
+        ops, out, meta = ctx.run_hx("faults", 2500 if quick else 0, timeout=3000)
         ctx.absorb_meta(meta, prefix="faults_")
         nf = 0
         for line in open(ops, errors="replace"):
@@ -68,10 +100,25 @@ def run(ctx):
             nf += 1
         ctx.evaluations += nf
         c = ctx.coverage.get("counters", {})
-        regions = sorted(k for k in c if k.startswith("faults_region_"))
+        regions = sorted(k[len("faults_region_"):] for k in c if k.startswith("faults_region_"))
         ctx.oblige("fault enumeration reached all message kinds of whole-circuit sessions (key, tables, input labels, OT both "
-                   "ways, output labels) and both directions + output labels of streaming sessions",
-                   len(regions) >= 9 and nf > 0, "regions: %s" % regions)
+                   "ways, output labels; at most one of the 7 missed by the quick sample) and all 8 parts of both directions of "
+                   "streaming sessions (key, program description, input labels, OT, instructions; OT, result framing, result labels)",
+                   nf > 0 and all(r in regions for r in STREAM_REGIONS) and sum(r in regions for r in WHOLE_REGIONS) >= 6,
+                   "regions: %s" % regions)
+        ctx.oblige("streaming sessions: both byte streams of every baseline session were parsed field by field (layout located) "
+                   "and every kind of LENGTH / COUNT / WIDTH field got shrinking and growing faults",
+                   c.get("faults_stream_layout_failed", 0) == 0 and c.get("faults_stream_layout_ok", 0) >= 14 and
+                   all(c.get("faults_length_field_cases_" + k, 0) > 0 for k in LENGTH_KINDS) and
+                   c.get("faults_result_framing_cases", 0) > 0,
+                   "%s %s" % (meta.get("stream_layout_error", ""),
+                              {k: v for k, v in c.items() if k.startswith("faults_length_field") or
+                               k.startswith("faults_stream_") or k == "faults_result_framing_cases"}))
+        ctx.oblige("streaming sessions: every output bit position of every session program carries a 1 in some session "
+                   "(a truncated or shifted result is visibly wrong)",
+                   c.get("faults_stream_output_bit_positions", 0) > 0 and c.get("faults_stream_output_bit_positions_never_1", 1) == 0,
+                   {k: c.get(k) for k in ("faults_stream_output_bit_positions", "faults_stream_output_bit_positions_never_1",
+                                          "faults_streaming_programs", "faults_streaming_sessions")})
         ctx.coverage["exhaustive"] = not quick
         if ctx.widen:
             for s in range(ctx.seed + 7000, ctx.seed + 7003):
@@ -79,23 +126,38 @@ def run(ctx):
                 ctx.absorb_meta(meta, prefix="widen_")
                 if ctx.fails:
                     break
-    ctx.coverage["rule"] = ("decide: random circuits, each output label honest/other/bit-flipped/garbage/zero; faults: quick = "
-                            "seeded sample of (session, direction, byte position, bit flip | byte set | 16-byte burst), thorough "
-                            "= every byte position of both directions of 8 sessions (CO, COT, COT-malicious on the wire); "
-                            "distinct = distinct op lines")
+    ctx.coverage["rule"] = ("decide: random circuits, each output label honest/other/bit-flipped/garbage/zero; sdecide: 7 streaming "
+                            "programs, scripted result message with n-1 / fewer / 0 / n / n+1 / more labels, at most two of them not "
+                            "honest; faults: quick = seeded sample of (session, direction, byte position, bit flip | byte set | "
+                            "16-byte burst), thorough = every byte position of both directions of 8 whole-circuit sessions (CO, COT, "
+                            "COT-malicious on the wire) and of the first session of each of 7 streaming programs (single ints, struct / "
+                            "array / slice arguments on either side, 1-3 results incl. an array; 3 input sets per program, the later "
+                            "ones chosen so that every output bit is 1 somewhere); plus in both tiers the targeted sets: result wire "
+                            "ids, select-bit corners of every returned label, and every LENGTH / COUNT / WIDTH field of both "
+                            "directions of the streaming sessions (located by parsing the recorded streams) changed to v-1, v/2, "
+                            "v&(v-1), v+1, 2v, v|(v+1) (+ v-8, v+8, v-16, v+16, 0, v/4, 4v for widths and counts), every digit of every "
+                            "type string to every other digit, every bit of the framing of the result message; distinct = distinct "
+                            "op lines")
     ctx.assumptions += [
         "authenticity of the garbling scheme under corruption (no transit corruption makes the evaluator produce label xor r) "
         "is proved SYMBOLICALLY (free hash, Dolev-Yao adversary limited to xor / hashing under any tweak / select bits / fresh labels: "
         "Props/C16Sym.lean, C16_symbolic_authenticity, C16_symbolic_no_wrong_result); the COMPUTATIONAL statement for the AES-based hash is "
         "cryptographic, outside Lean, and covered by fault enumeration on the real code",
-        "streaming sessions take part in the fault enumeration (2-3 small programs, CO on the wire); their session key comes "
-        "from crypto/rand, so positions are reproducible but not the bytes",
+        "streaming sessions take part in the fault enumeration (7 small programs x 3 input sets, CO on the wire); their session key "
+        "comes from crypto/rand, so positions are reproducible but not the bytes",
+        "the streaming argument description is not authenticated: a corruption that rewrites the evaluator's own argument record "
+        "into another self-consistent description makes the evaluator choose other input bits; the reduction theorem does not "
+        "cover this (C16_labels_of_other_input_accepted, C16_description_residual_witness; known finding "
+        "C16-stream-argument-description-unauthenticated)",
     ]
     return ctx.finish(
         "Theorems: if the garbler's result loop succeeds on ARBITRARY received labels, each is one of the wire's two labels and "
         "a wrong value implies some label = honest label xor r (C16_wrong_imp_offset); unknown labels and wrong gate counts "
         "take error branches; in the symbolic free-hash model the other label of a wire is not derivable from the evaluator's view, so "
-        "adversary-derivable output labels give an error or exactly the plain evaluation (C16_symbolic_no_wrong_result). Tie: real circuit.Garbler against a scripted evaluator returning chosen labels vs the Lean "
+        "adversary-derivable output labels give an error or exactly the plain evaluation (C16_symbolic_no_wrong_result). "
+        "Streaming: the result loop returns ok only after consuming exactly Outputs.Size labels, each one of its wire's two "
+        "(C16_stream_result_count; a loop resolving len(block)/16 labels accepts a truncated result: C16_block_loop_accepts_short_block). "
+        "Tie: real circuit.Garbler and real streaming garbler against scripted evaluators returning chosen (numbers of) labels vs the Lean "
         "decision logic; structural facts (single BitFromLabel path, row-length checks). Oracle: fault enumeration at byte "
         "positions of both directions of complete sessions, one child process per case; outcome must be "
         "error|stalled|crash|ok(correct).")
